@@ -162,6 +162,11 @@ pub uninterp spec fn fmt_of(e: Utf8Error) -> String;
 pub struct Utf8Error { pub valid_up_to: usize }
 
 // ---- catalogue stubs (std), contract-only -----------------------------------------------------
+// R29: Vec::<u32>::with_capacity(n): std panics with "capacity overflow" exactly when 4 * n > isize::MAX
+pub fn vec_with_capacity_u32(n: usize) -> (r: Vec<u32>)
+    requires 4 * n <= isize::MAX,
+    ensures r@.len() == 0,
+{ Vec::new() }
 // R5: &a[i..j]  (std panics exactly outside this precondition)
 #[verifier::external_body]
 pub fn slice_subrange<'a>(a: &'a [u8], i: usize, j: usize) -> (r: &'a [u8])
@@ -312,6 +317,8 @@ def build(tier="quick", must_fail=False):
     def words_edit(p):
         # G1: name Verus' ghost iterator so the invariant can mention how many rounds are done
         p.sub(r"for _ in 0\.\.n", "for _ in iter: 0..n", "G1", count=1)
+        # R29: Vec::with_capacity(n) panics ("capacity overflow") when n elements exceed isize::MAX bytes: stated as a precondition
+        p.sub(r"Vec::with_capacity\(", "vec_with_capacity_u32(", "R29", required=False)
         p.add_loop_contract(1, """
             invariant
                 self.wf(), self.bytes == old(self).bytes,
@@ -582,7 +589,9 @@ def witness(failure, ctx):
             uniq.append(b)
     lims = [[], ["lim:0"], ["lim:1"], ["lim:2"], ["lim:3"], ["lim:4611686018427387904"], ["lim:18446744073709551615"]]
     seqs = [["w"], ["s"], ["s", "s"], ["w", "s"], ["b64"], ["s", "w"], ["w", "w", "w"], ["source_language"],
-            ["image_operands", "s"], ["s", "clr", "s"], ["ws:2", "s"], ["ws:1", "w", "w"], ["ws:2", "w"], ["ws:3"], ["w", "ws:1", "w"]]
+            ["image_operands", "s"], ["s", "clr", "s"], ["ws:2", "s"], ["ws:1", "w", "w"], ["ws:2", "w"], ["ws:3"], ["w", "ws:1", "w"],
+            ["ws:4611686018427387904"], ["ws:18446744073709551615"], ["w", "ws:4611686018427387905", "w"], ["lim:1", "lim:3", "w", "clr", "ws:5"],
+            ["lim:3", "lim:1", "w", "clr", "ws:5"], ["lim:2", "clr", "lim:1", "clr", "ws:3"]]
     tried = 0
     for b in uniq:
         hexs = "".join("%02x" % x for x in b) or ""
